@@ -284,6 +284,12 @@ TyExprs(t) ==
         \o (IF Len(iv) >= 2 THEN <<Case1D(Fn2("gt", Col(iv[1]), LitI(0)), Col(iv[1]), Col(iv[2])), FnN("hmax", <<Col(iv[1]), Col(iv[2])>>),
                                     FnN("coalesce", <<Col(iv[1]), Col(iv[2])>>), Fn2("add", Col(iv[1]), Col(iv[2])),
                                     Fn2("fill_null", Col(iv[1]), Col(iv[2]))>> ELSE <<>>)
+        \* an unsigned 64-bit column next to a signed one (no integer type holds both ranges)
+        \o (IF "w" \in VisNames(t) /\ "g" \in VisNames(t)
+            THEN LET w == Col(ByName(t)["w"]) gg == Col(ByName(t)["g"]) IN
+                 <<Case1D(Fn2("gt", gg, LitI(0)), w, gg), FnN("hmax", <<w, gg>>), FnN("coalesce", <<w, gg>>), Fn2("add", w, gg),
+                   Fn2("add", w, LitI(1)), Fn2("fill_null", w, LitI(0)), Agg("sum", w), Fn2("mod", w, LitI(2))>>
+            ELSE <<>>)
         \o Flat(MapS(fv, LAMBDA c :
             <<Fn2("add", Col(c), LitI(1)), Fn2("mul", Col(c), Col(c)), Cast(Col(c), "int"), Fn1("floor", Col(c)), Fn1("ceil", Col(c)),
               Fn2("lt", Col(c), LitI(1)), Agg("sum", Col(c)), Agg("mean", Col(c)), Agg("max", Col(c)),
